@@ -1,7 +1,7 @@
 (* Proofs/CodecErrBase.v — C08: induction on type terms and the elementary facts about the stream
    primitives and the decode combinators the error-algebra proofs use. *)
 From PV Require Import Base.Bytes Base.BytesLemmas Base.Res.
-From PV Require Import Gen.Types Gen.CodecFacts Model.Codec Model.CodecDom Proofs.CodecErrDefs.
+From PV Require Import Gen.Types Gen.CodecFacts Model.Codec Proofs.CodecErrDefs.
 From Coq Require Import ZifyBool.
 Open Scope Z_scope.
 Ltac Zify.zify_post_hook ::= Z.to_euclidean_division_equations.
@@ -69,7 +69,9 @@ Lemma row_USINT : int_row n_USINT = Some (false, 1%nat). Proof. reflexivity. Qed
 Lemma fss_enc_is : fss_enc = Some Latin1. Proof. reflexivity. Qed.
 Lemma pccc_ascii_enc_is : pccc_ascii_enc = Some Latin1. Proof. reflexivity. Qed.
 Lemma pccc_string_enc_is : pccc_string_enc = Some Latin1. Proof. reflexivity. Qed.
-Lemma stringn_enc_1_is : stringn_enc 1 = Some Utf8. Proof. reflexivity. Qed.
+Lemma stringn_enc_1_is : stringn_enc 1 = Some Latin1. Proof. reflexivity. Qed.
+Lemma stringn_enc_0_is : stringn_enc 0 = None. Proof. reflexivity. Qed.
+Lemma named_SHORT_STRING_decode : named_decode n_SHORT_STRING = str_decode false 1 Latin1. Proof. reflexivity. Qed.
 
 Lemma named_UINT_decode : named_int_decode n_UINT = int_decode false 2.
 Proof. unfold named_int_decode. now rewrite row_UINT. Qed.
@@ -124,13 +126,29 @@ Proof.
     unfold zlen in Hl. cbn [length] in Hl. lia.
 Qed.
 
-(* _stream_read: BufferEmptyError on an empty read, the continuation otherwise *)
+(* _stream_read: BufferEmptyError when a non-zero read returns nothing, DataError when it returns
+   less than asked for, the continuation otherwise *)
 Lemma stream_read_cases n bs k :
   exists d r, stream_take n bs = (d, r) /\
-    ((d = [] /\ stream_read n bs k = DEmpty r) \/ (d <> [] /\ stream_read n bs k = k d r)).
+    ((d = [] /\ n <> 0 /\ stream_read n bs k = DEmpty r)
+     \/ (d = [] /\ n = 0 /\ stream_read n bs k = k [] r)
+     \/ (d <> [] /\ zlen d < n /\ stream_read n bs k = DErr DataError)
+     \/ (d <> [] /\ n <= zlen d /\ stream_read n bs k = k d r)).
 Proof.
   unfold stream_read. destruct (stream_take n bs) as [d r] eqn:E. exists d, r. split; [reflexivity|].
-  destruct d; [left|right]; split; try reflexivity; discriminate.
+  destruct d as [|b d'].
+  - destruct (n =? 0) eqn:En; [right; left|left]; repeat split; auto; lia.
+  - right; right. destruct (zlen (b :: d') <? n) eqn:El; [left|right]; repeat split; auto; try discriminate; lia.
+Qed.
+
+(* an empty read that raises: the buffer is exhausted *)
+Lemma stream_read_empty n bs r : stream_take n bs = ([], r) -> n <> 0 -> r = [] /\ bs = [].
+Proof. intros Ht Hn. apply stream_take_nil in Ht as [-> [->|H]]; [auto|contradiction]. Qed.
+
+(* a full read of n >= 0 bytes *)
+Lemma stream_take_full n bs d r : stream_take n bs = (d, r) -> 0 <= n -> n <= zlen d -> length d = Z.to_nat n.
+Proof.
+  intros Ht Hn Hl. pose proof (stream_take_data_len _ _ _ _ Hn Ht) as H. unfold zlen in *. lia.
 Qed.
 
 (* ------------------------------------------------------------------ dres *)
@@ -149,26 +167,11 @@ Proof. destruct r; cbn; split; intros H; try discriminate; auto. Qed.
 Lemma dwrap_err r e : dwrap r = DErr e -> e = DataError.
 Proof. destruct r; cbn; intros H; try discriminate. now injection H. Qed.
 
-(* a decoder whose results never run out of fuel / is a library result *)
 Definition lib_dres (r : dres) : Prop := match r with DErr e => e = DataError | _ => True end.
 Lemma dwrap_lib r : lib_dres (dwrap r).
 Proof. destruct r; cbn; auto. Qed.
 
 (* ------------------------------------------------------------------ elementary decoders *)
-(* an elementary decoder (one _stream_read of [size] bytes, then unpack) *)
-Lemma elem_decode_cases size unpack bs :
-  (elem_decode size unpack bs = DEmpty bs /\ (bs = [] \/ size = 0%nat))
-  \/ (exists d r, bs = d ++ r /\ d <> [] /\ length d = Nat.min size (length bs)
-                 /\ elem_decode size unpack bs = dwrap (dres_of_res (unpack d) r)).
-Proof.
-  unfold elem_decode.
-  destruct (stream_read_cases (Z.of_nat size) bs (fun data rest => dres_of_res (unpack data) rest)) as (d & r & Ht & [[Hd Hr]|[Hd Hr]]).
-  - left. subst d. apply stream_take_nil in Ht as [-> Hc]. rewrite Hr. cbn. split; [reflexivity|]. destruct Hc; [now left|right; lia].
-  - right. exists d, r. rewrite Hr. repeat split; auto.
-    + now apply stream_take_split in Ht.
-    + apply stream_take_data_len in Ht; [|lia]. unfold zlen in Ht. lia.
-Qed.
-
 Lemma dres_of_res_cases (x : res val) r :
   (exists v, x = Ok v /\ dres_of_res x r = DOk v r) \/ (exists e, x = Err e /\ dres_of_res x r = DErr e).
 Proof. destruct x; [left|right]; eexists; split; reflexivity. Qed.
@@ -182,26 +185,34 @@ Proof.
   - destruct (length d =? 4)%nat eqn:E; [|discriminate]. intros _. now apply Nat.eqb_eq.
 Qed.
 
-(* the shape of every result of an elementary decoder whose unpack demands exactly [size] bytes *)
+(* the shape of every result of an elementary decoder (one _stream_read of [size] bytes, then an
+   unpack that demands exactly [size] bytes) *)
 Lemma elem_decode_exact size unpack bs :
   (forall d v, unpack d = Ok v -> length d = size) ->
   match elem_decode size unpack bs with
-  | DOk _ r => (0 < size)%nat /\ length bs = (size + length r)%nat
-  | DEmpty r => r = bs /\ (bs = [] \/ size = 0%nat)
+  | DOk _ r => length bs = (size + length r)%nat
+  | DEmpty r => r = [] /\ bs = [] /\ (0 < size)%nat
   | DErr e => e = DataError
   | DOutOfFuel => False
   end.
 Proof.
-  intros Hu. destruct (elem_decode_cases size unpack bs) as [[-> Hc]|(d & r & -> & Hd & Hl & ->)].
-  - split; auto.
-  - destruct (dres_of_res_cases (unpack d) r) as [(v & Hv & ->)|(e & He & ->)]; cbn; [|reflexivity].
-    apply Hu in Hv. rewrite app_length. split; [|lia]. destruct d; [contradiction|]. cbn in Hv. lia.
+  intros Hu. unfold elem_decode.
+  destruct (stream_read_cases (Z.of_nat size) bs (fun data rest => dres_of_res (unpack data) rest))
+    as (d & r & Ht & [(-> & Hn & ->)|[(-> & Hn & ->)|[(Hd & Hl & ->)|(Hd & Hl & ->)]]]); cbn [dwrap].
+  - destruct (stream_read_empty _ _ _ Ht Hn) as [-> ->]. repeat split; lia.
+  - pose proof (stream_take_split _ _ _ _ Ht) as ->.
+    destruct (dres_of_res_cases (unpack []) r) as [(v & Hv & ->)|(e & He & ->)]; cbn; [|reflexivity].
+    apply Hu in Hv. cbn in Hv. lia.
+  - reflexivity.
+  - pose proof (stream_take_split _ _ _ _ Ht) as ->.
+    destruct (dres_of_res_cases (unpack d) r) as [(v & Hv & ->)|(e & He & ->)]; cbn; [|reflexivity].
+    apply Hu in Hv. rewrite app_length. lia.
 Qed.
 
 Lemma int_decode_shape sg w bs :
   match int_decode sg w bs with
-  | DOk _ r => (0 < w)%nat /\ length bs = (w + length r)%nat
-  | DEmpty r => r = bs /\ (bs = [] \/ w = 0%nat)
+  | DOk _ r => length bs = (w + length r)%nat
+  | DEmpty r => r = [] /\ bs = [] /\ (0 < w)%nat
   | DErr e => e = DataError
   | DOutOfFuel => False
   end.
@@ -210,31 +221,33 @@ Proof. apply elem_decode_exact. intros d v. apply unpack_int_ok. Qed.
 Lemma real_decode_shape dbl bs :
   match real_decode dbl bs with
   | DOk _ r => length bs = ((if dbl then 8 else 4) + length r)%nat
-  | DEmpty r => r = bs /\ bs = []
+  | DEmpty r => r = [] /\ bs = []
   | DErr e => e = DataError
   | DOutOfFuel => False
   end.
 Proof.
   unfold real_decode.
   pose proof (elem_decode_exact (if dbl then 8 else 4)%nat (unpack_real dbl) bs (fun d v => unpack_real_ok dbl d v)) as H.
-  destruct (elem_decode _ _ bs); auto.
-  - tauto.
-  - destruct H as [-> [H|H]]; [auto|]. destruct dbl; discriminate.
+  destruct (elem_decode _ _ bs); auto. tauto.
 Qed.
 
 Lemma bool_decode_shape bs :
   match bool_decode bs with
   | DOk _ r => length bs = (1 + length r)%nat
-  | DEmpty r => r = bs /\ bs = []
+  | DEmpty r => r = [] /\ bs = []
   | DErr e => e = DataError
   | DOutOfFuel => False
   end.
 Proof.
-  unfold bool_decode.
-  destruct (elem_decode_cases 1 (fun data => Ok (VBool (negb match data with [0] => true | _ => false end))) bs)
-    as [[-> Hc]|(d & r & -> & Hd & Hl & ->)].
-  - split; [reflexivity|]. destruct Hc; [assumption|discriminate].
-  - cbn. rewrite app_length in *. destruct d; [contradiction|]. cbn [length] in *. lia.
+  unfold bool_decode. unfold elem_decode.
+  destruct (stream_read_cases (Z.of_nat 1) bs (fun data rest =>
+              dres_of_res (Ok (VBool (negb match data with [0] => true | _ => false end))) rest))
+    as (d & r & Ht & [(-> & Hn & ->)|[(-> & Hn & ->)|[(Hd & Hl & ->)|(Hd & Hl & ->)]]]); cbn [dwrap dres_of_res].
+  - destruct (stream_read_empty _ _ _ Ht Hn) as [-> ->]. auto.
+  - lia.
+  - reflexivity.
+  - pose proof (stream_take_full _ _ _ _ Ht ltac:(lia) Hl) as Hf. apply stream_take_split in Ht. subst bs.
+    rewrite app_length. lia.
 Qed.
 
 (* ------------------------------------------------------------------ Forall over member lists *)
